@@ -2,7 +2,7 @@ SPECIFICATION Spec
 CONSTANTS
   Sigma = {0, 1, 2, 63, 64, 192, 12, 97}
   MaxBody = 4
-  HopLimit = 10
+  HopLimit = 126
   Start = 12
 INVARIANTS EmitInput
 CHECK_DEADLOCK FALSE
